@@ -373,10 +373,14 @@ func (p *Policy) sanitize(r io.Reader, w io.Writer) error {
 
 			switch normaliseElementName(token.Data) {
 			case `script`:
+				// the tokenizer reads what follows as the raw text of the
+				// element regardless of the self-closing syntax
+				mostRecentlyStartedToken = `script`
 				if !p.allowUnsafe {
 					continue
 				}
 			case `style`:
+				mostRecentlyStartedToken = `style`
 				if !p.allowUnsafe {
 					continue
 				}
